@@ -1507,7 +1507,7 @@ print(json.dumps(res))
     src.add(m=1.)
     src.add(m=1e-3, a=1.7, e=0.05, inc=0.02)
     src.add(m=2e-3, a=2.4, e=0.1, inc=0.04)
-    src.integrator, src.dt = "whfast", 0.01
+    src.integrator, src.dt = "ias15", 0.01
     src.ri_whfast.kernel, src.ri_whfast.coordinates, src.ri_whfast.corrector = "lazy", "whds", 7
     src.ri_saba.type, src.ri_eos.phi0, src.ri_eos.phi1 = "cl4", "lf8", "pmlf4"
     src.gravity, src.collision, src.boundary = "compensated", "direct", "open"
